@@ -23,7 +23,7 @@ def gen(rng: random.Random, tier: str):
         reg = rng.choice([0.01, 0.1, 1.0])
         yield {"kind": ["explicit", "implicit", "funksvd"][k % 3], "rows": rows, "nf": rng.randint(1, 4), "epochs": rng.randint(1, 4), "reg_user": reg, "reg_item": rng.choice([reg, reg * 3]),
                "damping": rng.choice([0, 5]), "weight": rng.choice([1, 10, 40]), "seed": rng.randrange(10**6), "lrate": rng.choice([0.001, 0.01, 0.05]),
-               "range": rng.choice([None, [0.5, 5.0], [1.0, 4.0]]), "extra_item": rng.random() < 0.3}
+               "range": rng.choice([None, [0.5, 5.0], [1.0, 4.0]]), "extra_item": rng.random() < 0.3, "extra_user": rng.random() < 0.3}
 
 def _als(case, lean):
     import pandas as pd
@@ -35,9 +35,19 @@ def _als(case, lean):
     ds = from_interactions_df(pd.DataFrame(case["rows"], columns=["user_id", "item_id", "rating"]))
     if case["extra_item"]:
         b = DatasetBuilder(ds); b.add_entities("item", [99999]); ds = b.build()       # an item nobody interacted with
+    if case.get("extra_user"):
+        b = DatasetBuilder(ds); b.add_entities("user", [88888]); ds = b.build()       # a user without interactions
     regs = {"user": case["reg_user"], "item": case["reg_item"]}
     m = (BiasedMFScorer(embedding_size=nf, epochs=case["epochs"], regularization=regs, damping=case["damping"]) if explicit
          else ImplicitMFScorer(embedding_size=nf, epochs=case["epochs"], regularization=regs, weight=case["weight"], use_ratings=False))
+    # observe the training from inside: the initial matrices and the state around every half-step
+    init = []; steps = []
+    orig_init, orig_half = m.initial_params, m.als_half_epoch
+    def spy_init(nrows, ncols, rng_): t = orig_init(nrows, ncols, rng_); init.append(t.clone().numpy().astype("f8")); return t
+    def spy_half(epoch, ctx):
+        other = ctx.right.clone().numpy().astype("f8"); d = orig_half(epoch, ctx)
+        steps.append({"side": ctx.label, "epoch": epoch, "left": ctx.left.clone().numpy().astype("f8"), "other": other}); return d
+    m.initial_params = spy_init; m.als_half_epoch = spy_half
     m.train(ds, TrainingOptions(rng=case["seed"]))
     U = m.user_features_.numpy().astype("f8"); I = m.item_features_.numpy().astype("f8")
     R = ds.interactions().matrix().scipy(attribute="rating", layout="csr").toarray(); Mk = ds.interactions().matrix().scipy(layout="csr").toarray() > 0
@@ -58,6 +68,32 @@ def _als(case, lean):
             scale = max(1.0, float(np.abs(U).max()) ** 2 * U.shape[0] * (1 + w))
         r = max(abs(float(Fraction(v))) for v in out["resid"]) / scale; worst = max(worst, r)
         if r > 1e-5: failed.append(f"item row {i}: normal-equation residual {r:.2e}")
+    # the user side, after the last user half-step, solves its system against the item matrix of that moment
+    ust = [st for st in steps if st["side"] == "user"]
+    if ust:
+        Uh, Iprev = ust[-1]["left"], ust[-1]["other"]
+        for u in range(Uh.shape[0]):
+            its = np.where(Mk[u, :])[0]
+            if explicit:
+                if len(its) == 0: continue
+                out = mat().call("c10.explicit", dict(M=[[rat(v) for v in Iprev[i]] for i in its], r=[rat(resid[u, i]) for i in its], c=rat(case["reg_user"] * len(its)), x=[rat(v) for v in Uh[u]]))
+                scale = max(1.0, float(np.abs(Iprev[its]).max()) ** 2 * len(its))
+            else:
+                w = case["weight"]
+                out = mat().call("c10.implicit", dict(Y=[[rat(v) for v in row] for row in Iprev], p=[rat(1.0 if Mk[u, i] else 0.0) for i in range(Iprev.shape[0])],
+                                                      w=[rat(1.0 + w * (1.0 if Mk[u, i] else 0.0)) for i in range(Iprev.shape[0])], c=rat(case["reg_user"]), x=[rat(v) for v in Uh[u]]))
+                scale = max(1.0, float(np.abs(Iprev).max()) ** 2 * Iprev.shape[0] * (1 + w))
+            r = max(abs(float(Fraction(v))) for v in out["resid"]) / scale; worst = max(worst, r)
+            if r > 1e-5: failed.append(f"user row {u}: normal-equation residual {r:.2e} after the last user half-step")
+    # rows without data keep their previous values through every half-step (i.e. their initial embedding)
+    keys = []
+    if len(init) == 2:
+        I0, U0 = init
+        for side, mat_now, mat0, active in (("item", I, I0, Mk.any(axis=0)), ("user", U, U0, Mk.any(axis=1))):
+            for k in np.where(~active)[0]:
+                if not np.array_equal(mat_now[k], mat0[k]):
+                    failed.append(f"{side} row {k} has no data but changed from {mat0[k].round(3).tolist()} to {mat_now[k].round(3).tolist()}")
+                    keys.append("ALS rows without data are overwritten (with zeros) instead of keeping their previous values")
     # scores are dot products plus the applicable biases
     u0 = int(ds.users.ids()[0]); items = ItemList(item_ids=list(ds.items.ids()))
     sc = m(RecQuery(user_id=u0), items).scores()
@@ -67,7 +103,8 @@ def _als(case, lean):
     classes = ["als-" + case["kind"]]
     if case["reg_user"] != case["reg_item"]: classes.append("per-side regularisation")
     if case["extra_item"]: classes.append("item without data")
-    return True, failed, classes, {"max_relative_residual": worst}
+    if case.get("extra_user"): classes.append("user without data")
+    return True, failed, classes, {"max_relative_residual": worst, "half_steps_observed": len(steps), "keys": sorted(set(keys))}
 
 def _funk(case, lean):
     import pandas as pd
@@ -103,7 +140,9 @@ def _funk(case, lean):
 
 def run(case: dict, lean: Lean) -> Outcome:
     corr, failed, classes, info = (_funk if case["kind"] == "funksvd" else _als)(case, lean)
-    return Outcome(corr, not failed, tuple(classes), {"failed": failed[:6], **info}, None)
+    ks = info.pop("keys", [])
+    fk = tuple(ks) if (ks and failed and all("has no data but changed" in f for f in failed)) else None
+    return Outcome(corr, not failed, tuple(classes), {"failed": failed[:6], **info}, fk)
 
 def shrink(case: dict):
     for i in range(len(case["rows"])):
